@@ -67,6 +67,13 @@ def run_keys(ctx, tr, d, s, k, via):
     if s.get("stale"):   # history: both key files exist already
         for suffix in ("priv", "pub"):
             (d / f"{stem}_{suffix}.{s['enc']}").write_bytes(STALE)
+        if k % 2 == 0 or s["pubfmt"] == "pkcs1":   # ... as a VALID pair written by an earlier run of the tool
+            core.setup_repo_path()
+            from suit_generator import cmd_keys as _ck
+            try:
+                _ck.main(str(prefix), s["type"], s["enc"], "pkcs8", "default", "none")
+            except BaseException:
+                pass
     if via == "cli":
         p = subprocess.run(core.cli_cmd("keys", "--output-file", prefix, "--type", s["type"], "--encoding", s["enc"],
                                         "--private-format", s["privfmt"], "--public-format", s["pubfmt"]),
@@ -234,7 +241,7 @@ def run(ctx: core.Check):
     ctx.note(f"Use B/C: {len(keys_s)} keys scenarios")
     ctx.rng.shuffle(keys_s)   # TLC's enumeration order is periodic: the modulo selectors below must not alias with it
     for k, s in enumerate(keys_s):
-        s["stale"] = k % 3 == 1
+        s["stale"] = k % 3 == 1 or s["pubfmt"] == "pkcs1"   # (a request refused at the public key must leave an earlier pair whole)
         s["dotted"] = k % 4 == 2
         run_keys(ctx, tr, d, s, k, "lib")
         if k % 6 == 0:
